@@ -11,8 +11,8 @@ import (
 	"verifharness/internal/val"
 )
 
-var c05Floor = []string{"keys.1", "keys.2", "keys.3", "dir.asc", "dir.desc", "dir.mixed", "key.null", "key.computed-null", "key.alias", "key.str", "key.num", "ties", "limit.huge",
-	"limit.bare", "limit.offset", "limit.comma", "limit.zero", "offset.beyond", "window.straddle", "window.inside", "window.noorder", "where",
+var c05Floor = []string{"keys.1", "keys.2", "keys.3", "dir.asc", "dir.desc", "dir.mixed", "key.null", "key.computed-null", "key.alias", "key.alias.nonword", "key.str", "key.num", "ties", "limit.huge",
+	"limit.bare", "limit.beyond-int64", "limit.offset", "limit.comma", "limit.zero", "offset.beyond", "window.straddle", "window.inside", "window.noorder", "where",
 	"shape.distinct", "shape.agg-all", "shape.group", "shape.union", "shape.bigint", "shape.union-order", "shape.qualified", "shape.shrunk-offset"}
 
 func init() {
@@ -92,7 +92,12 @@ func c05Order(c *fw.Case) {
 			}
 			if force == "key.alias" && i == 0 || c.Chance(0.3) {
 				out = "k" + fmt.Sprint(i)
-				items = append(items, col+" AS "+out)
+				if c.Chance(0.4) {
+					// an output column is named by its alias as it is, whatever characters it holds
+					out = fmt.Sprintf(gen.Pick(c.R, []string{"k %d", "k-%d", "k.%d", "é%d", "count(%d)"}), i)
+					feats = append(feats, "key.alias.nonword")
+				}
+				items = append(items, col+" AS "+c05Quote(out))
 				feats = append(feats, "key.alias")
 			} else {
 				items = append(items, col)
@@ -153,7 +158,7 @@ func c05Order(c *fw.Case) {
 			if !k.desc && c.Chance(0.3) {
 				d = ""
 			}
-			parts[i] = k.out + d
+			parts[i] = c05Quote(k.out) + d
 		}
 		orderSQL = " ORDER BY " + strings.Join(parts, ", ")
 	}
@@ -283,16 +288,28 @@ func c05Order(c *fw.Case) {
 		}
 	}
 	var limSQL string
+	// numbers beyond the range of an int64 (LIMIT m, 18446744073709551615 is
+	// the MySQL idiom for "all rows from m on") are as good as the largest one
+	limS, offS := fmt.Sprint(lim), fmt.Sprint(off)
+	if lim == math.MaxInt64 && c.Chance(0.6) {
+		limS = gen.Pick(c.R, []string{"18446744073709551615", "9223372036854775808", "99999999999999999999999"})
+		feats = append(feats, "limit.beyond-int64")
+	}
+	if spelling != 0 && off > n && c.Chance(0.2) {
+		offS = gen.Pick(c.R, []string{"18446744073709551615", "9223372036854775808"})
+		off = math.MaxInt64
+		feats = append(feats, "limit.beyond-int64")
+	}
 	switch spelling {
 	case 0:
 		off = 0
-		limSQL = fmt.Sprintf(" LIMIT %d", lim)
+		limSQL = " LIMIT " + limS
 		feats = append(feats, "limit.bare")
 	case 1:
-		limSQL = fmt.Sprintf(" LIMIT %d OFFSET %d", lim, off)
+		limSQL = " LIMIT " + limS + " OFFSET " + offS
 		feats = append(feats, "limit.offset")
 	default:
-		limSQL = fmt.Sprintf(" LIMIT %d, %d", off, lim)
+		limSQL = " LIMIT " + offS + ", " + limS
 		feats = append(feats, "limit.comma")
 	}
 	if lim == 0 {
@@ -597,4 +614,15 @@ func c05CmpInt(a, b any) int {
 		return 1
 	}
 	return 0
+}
+
+
+// c05Quote back-ticks an output column name that is not a plain word.
+func c05Quote(name string) string {
+	for _, ch := range name {
+		if !(ch == '_' || ch >= '0' && ch <= '9' || ch >= 'a' && ch <= 'z' || ch >= 'A' && ch <= 'Z') {
+			return "`" + name + "`"
+		}
+	}
+	return name
 }
